@@ -109,7 +109,7 @@ func c03SharedBuffer(c *core.Ctx, r *core.RNG) {
 func runC03(c *core.Ctx) {
 	c03FirstCalls(c)
 	// 1. exported EncryptFRMPayload: all lengths x parameter sets
-	sets := c.N(40, 2000)
+	sets := c.N(40, 20000)
 	idx := int64(0)
 	for s := int64(0); s < sets; s++ {
 		for ln := 0; ln <= 255; ln++ {
@@ -210,7 +210,7 @@ func runC03(c *core.Ctx) {
 	}
 
 	// 3. PHYPayload methods
-	n := c.N(20000, 1000000)
+	n := c.N(20000, 15000000)
 	for i := int64(0); i < n; i++ {
 		if !c.Mine("methods", i) {
 			continue
